@@ -1,13 +1,21 @@
 import RawPanelVerif.Driver.Topology
 import RawPanelVerif.Model.SvgIcon
+import RawPanelVerif.Model.SvgObs
 import RawPanelVerif.Spec.SvgSpec
 /-!
 Driver glue for the `svg.*` records (C15).
 ```
-svg.gen showLabels showHWCID showType showDisplaySize base:hex kinds:hex endOk:01 MASK ROT T  |  OUT
+svg.gen showLabels showHWCID showType showDisplaySize base:hex kinds:hex endOk:01 FEAT TOKS MASK ROT T  |  OUT
 kinds := one letter per token `encoding/xml`'s `Decoder.Token` delivers for the base (S start element, E end element,
          C / W character data non-blank / blank, M comment, P processing instruction, D directive); endOk = the stream
          ended with io.EOF (no syntax error).  The harness's independent judgement; input of model and Spec.
+FEAT := F:- | F:name,…      the harness's lossy-feature flags of the base (comment, mixed-text, ns-prefix, pi, dup-attr),
+                            or rej-encoding / rej-version / rej-entity: a valid document the default decoder rejects.
+                            The driver recomputes the flags from TOKS with `Spec.SvgBase.features`; a difference is
+                            answered `NE H0:feature-flags` (the flags select known findings: they must be right).
+TOKS := n TOK^n             the token stream (Token() with the names of RawToken()), `Base/XmlTok.lean`
+TOK  := S pfx:hex local:hex nA (apfx:hex alocal:hex value:hex)^nA | E pfx:hex local:hex | C text:hex (trimmed)
+      | M text:hex | P target:hex inst:hex | D text:hex
 MASK := ~ | + n (id value)^n
 ROT  := n (token fmt fmt90 zero90:01)^n        Sprintf("%03f") of each rotation token occurring in T, and of value+90
 OUT  := PR nil strEmpty:01 | PR doc strEmpty:01 kept:01 kept2:01 wellformed:01 tail:01 n NODE^n
@@ -17,6 +25,9 @@ NODE := name:hex nA (key:hex value:hex)^nA text:hex printed:hex          printed
 svg.esc s:hex | printed:hex     (&xmldom.Node{Name: "text", Attributes: {style: s}, Text: s}).XML(): the printer on any bytes
 ```
 `strEmpty` = `GenerateCompositeSVG(...) == ""` (the string-returning wrapper).
+The model's flags are `Xmldom.modelObserved` (Model/SvgObs.lean): `kept2` / `wellformed` are `Spec.SvgBase.keepsContent` /
+`noDupAttrs` of the token stream the modelled xmldom round trip prints (`Xmldom.printedToks`, appended elements
+included); `kept` and `tail` are `1`.
 -/
 namespace RawPanelVerif.Driver.Svg
 open RawPanelVerif RawPanelVerif.Wire RawPanelVerif.Topo RawPanelVerif.Driver.Topo
@@ -68,11 +79,35 @@ def sPR : Svg.ParseResult → String
   | .noRoot => "noroot"
   | .root => "root"
 
-/-- the model's output line; the four observed flags are printed as `1` (the model has no base document) -/
-def sOut (pr : Svg.ParseResult) (r : Option (List SvgNode)) : String :=
+def pXTok : P Xml.Tok := do
+  let k ← tok
+  if k = "S" then do
+    let p ← pHex; let l ← pHex; let n ← pNat
+    let as ← pMany (do let ap ← pHex; let al ← pHex; let v ← pHex; pure (ap, al, v)) n
+    pure (.start p l as)
+  else if k = "E" then do let p ← pHex; let l ← pHex; pure (.stop p l)
+  else if k = "C" then do let s ← pHex; pure (.text s)
+  else if k = "M" then do let s ← pHex; pure (.comment s)
+  else if k = "P" then do let a ← pHex; let b ← pHex; pure (.pi a b)
+  else if k = "D" then do let s ← pHex; pure (.dir s)
+  else failure
+
+def pXToks : P (List Xml.Tok) := do
+  let n ← pNat
+  pMany pXTok n
+
+def sBool (b : Bool) : String := if b then "1" else "0"
+
+def dropS (s : String) (n : Nat) : String := String.ofList (s.toList.drop n)
+
+/-- the model's output line: `kept2` and `wellformed` from the modelled round trip of the base, `kept` and `tail` as `1` -/
+def sOut (pr : Svg.ParseResult) (ts : List Xml.Tok) (r : Option (List SvgNode)) : String :=
   match r with
   | none => s!"{sPR pr} nil 1"
-  | some ns => " ".intercalate ([sPR pr, "doc", "0", "1", "1", "1", "1", sNat ns.length] ++ ns.flatMap sNode)
+  | some ns =>
+    let ob := Xmldom.modelObserved ns ts
+    " ".intercalate ([sPR pr, "doc", "0", sBool ob.kept, sBool ob.kept2, sBool ob.wellformed, sBool ob.tail, sNat ns.length] ++
+      ns.flatMap sNode)
 
 def escNode (s : Str) : SvgNode := { name := Svg.b "text", attrs := [(Svg.b "style", s)], text := s }
 
@@ -83,28 +118,40 @@ def step (cmd : String) (args0 : List String) (impl : String) : String :=
   | "svg.gen" =>
     let parsed := run (do
       let a ← pBool; let b ← pBool; let c ← pBool; let d ← pBool
-      let _base ← pHex; let kinds ← pHex; let endOk ← pBool; let mask ← pMask; let rot ← pRot; let t ← pTopo
-      pure (({ showLabels := a, showHWCID := b, showType := c, showDisplaySize := d } : SvgOpts), kinds, endOk, mask, rot, t)) args
+      let _base ← pHex; let kinds ← pHex; let endOk ← pBool; let feat ← tok; let ts ← pXToks
+      let mask ← pMask; let rot ← pRot; let t ← pTopo
+      pure (({ showLabels := a, showHWCID := b, showType := c, showDisplaySize := d } : SvgOpts), kinds, endOk, feat, ts, mask, rot, t)) args
     match parsed with
     | none => "ERR bad-record"
-    | some (o, kinds, endOk, mask, rot, t) =>
+    | some (o, kinds, endOk, feat, ts, mask, rot, t) =>
+      if ts.map Xml.kindOf ≠ kinds || !feat.startsWith "F:" then "ERR bad-record" else
+      let featNames := ((dropS feat 2).splitOn ",").filter (· ≠ "-")
+      let rej : Option String := (featNames.find? (·.startsWith "rej-")).map (dropS · 4)
+      let fs := Spec.SvgBase.features ts
+      -- the harness's flags must be the Spec's features of the token stream (valid bases), or one rejection class
+      let featOk := if endOk then featNames = fs.names else (featNames = [] || (rej.isSome && featNames.length = 1))
       let rotF : Str → Svg.RotInfo := fun tk => (rot.lookup tk).getD { fmt := [63], fmt90 := [63], zero90 := false }
       let pr := Svg.parseXML kinds endOk
       let m := Svg.compositeNodes rotF kinds endOk o t mask
-      let ms := sOut pr m
-      let eq := ms = " ".intercalate implToks
+      let ms := sOut pr ts m
+      let eq := ms = " ".intercalate implToks && featOk
       let baseOk := Spec.Svg.baseOk kinds endOk
-      let tags := [if baseOk then "base-ok" else "base-bad", s!"pr-{sPR pr}",
+      let tags := [if baseOk then "base-ok" else if rej.isSome then "base-rejected-valid" else "base-bad", s!"pr-{sPR pr}",
                    (match mask with | none => "nomap" | some [] => "emptymap" | some _ => "map"),
-                   s!"n{(t.hwc.filter (Spec.Svg.visible mask)).length}"]
+                   s!"n{(t.hwc.filter (Spec.Svg.visible mask)).length}"] ++
+                  (if baseOk then
+                    [if Spec.SvgBase.XmlDoc ts then "doc-shape-ok" else "doc-shape-bad",
+                     if Spec.SvgBase.lossFree ts && !fs.dup then "feat-none" else "feat-lossy"] ++ fs.names.map ("feat-" ++ ·)
+                   else [])
       let b := " ".intercalate (tags.map (fun x => "B:" ++ x))
       if impl.startsWith "panic:" then s!"NE H0:panic {ms} {b}"
       else
         match run pOut implToks with
         | none => s!"NE H0:shape {ms} {b}"
         | some io =>
-          let h := Spec.Svg.checkSVG (Svg.fmtOf rotF) o t mask kinds endOk io.nodes io.ob
-          let h := if h.isNone && !baseOk && !io.strEmpty then some "bad-base-string-not-empty" else h
+          let h := Spec.Svg.checkSVG (Svg.fmtOf rotF) o t mask kinds endOk ts rej io.nodes io.ob
+          let h := if h.isNone && !baseOk && !rej.isSome && !io.strEmpty then some "bad-base-string-not-empty" else h
+          let h := if featOk then h else some "feature-flags"
           if eq then s!"EQ {hTag h} {b}" else s!"NE {hTag h} {ms} {b}"
   | "svg.esc" =>
     match run pHex args with
